@@ -11,8 +11,11 @@ VERIF = os.path.dirname(os.path.abspath(__file__))
 sys.path.insert(0, os.path.join(VERIF, "tools"))
 import engine, annotate
 
-EVID = os.path.join(VERIF, "evidence")
-REPLAYS = os.path.join(VERIF, "replays")
+# evidence and replay files of runs against a tree other than /repo (VERIF_REPO, used when testing
+# seeded changes) must not overwrite the records of the real tree
+_ALT = os.environ.get("VERIF_REPO", "/repo") != "/repo"
+EVID = os.path.join(VERIF, "evidence") if not _ALT else "/tmp/verif-alt/evidence"
+REPLAYS = os.path.join(VERIF, "replays") if not _ALT else "/tmp/verif-alt/replays"
 KNOWN = os.path.join(VERIF, "known_findings.json")
 
 # property -> verification units.  "verus": obligations are those of functions whose @props
